@@ -68,6 +68,12 @@ static void build_node(const json &c, Built &B) {
       B.node->AddDecayEvent(rates[i]);
     else
       B.node->AddEvent(&B.dests[i], Eigen::Vector3d(double(i), 0, 1), rates[i]);
+    // history: the tree may already have been built for the first events (what KMCLifetime does: load the graph,
+    // build, add a decay event to every node, build again); the final tree must not depend on that
+    if (long(i) + 1 == long(c.value("rebuild_after", 0))) {
+      B.node->InitEscapeRate();
+      B.node->MakeHuffTree();
+    }
   }
   B.node->InitEscapeRate();
   B.node->MakeHuffTree();
@@ -102,6 +108,7 @@ static Result run_tree(const json &c) {
   if (mx / mn >= 1e9) r.cls("spread>=1e9");
   if (mx / double(sum) > 0.999) r.cls("one-dominant");
   if (c.contains("decay") && !c["decay"].empty()) r.cls("has-decay-event");
+  if (c.value("rebuild_after", 0) > 0) r.cls("tree-rebuilt-after-adding-events");
 
   // ---- escape rate == sum of the event rates
   double esc = node.getEscapeRate();
@@ -270,6 +277,7 @@ static json gen_tree() {
   std::vector<int> decay;
   if (rbool(25)) decay.push_back(ri(0, n - 1));
   c["decay"] = decay;
+  c["rebuild_after"] = (n >= 2 && rbool(35)) ? ri(1, n - 1) : 0;
   return c;
 }
 
